@@ -262,7 +262,41 @@ func c13Ceiling(c *Ctx) {
 		if pn == nil && len(fn.Params) >= 5 {
 			pn = fn.Params[4]
 		}
-		sinks := callSinks(fn, "Seal", CallSpec{Refs: []Ref{{"crypto/cipher", "AEAD", "Seal"}, {"noiseutil", "aeadGCMFIPS140Cipher", "Seal"}}})
+		sealSpec := CallSpec{Refs: []Ref{{"crypto/cipher", "AEAD", "Seal"}, {"noiseutil", "aeadGCMFIPS140Cipher", "Seal"}}}
+		sinks := callSinks(fn, "Seal", sealSpec)
+		// delegation: a call to another function of the package that seals without a ceiling test of its own is a seal
+		eachInstr(fn, func(in ssa.Instruction) {
+			ci, ok := in.(ssa.CallInstruction)
+			if !ok {
+				return
+			}
+			g := ci.Common().StaticCallee()
+			if g == nil || g == fn || g.Pkg == nil || g.Pkg.Pkg.Path() != PkgPath("noiseutil") || g.Blocks == nil {
+				return
+			}
+			inner := callSinks(g, "Seal", sealSpec)
+			if len(inner) == 0 {
+				return
+			}
+			guarded := true
+			gg := gCmp("n < RejectAfterMessages", func(v ssa.Value) bool { _, isP := stripValue(v).(*ssa.Parameter); return isP }, isRej, func(op token.Token) (bool, bool) {
+				switch op {
+				case token.GEQ:
+					return true, false
+				case token.LSS:
+					return true, true
+				}
+				return false, false
+			})
+			for _, sk := range inner {
+				if ok, n, _ := c.mustPass(g, sk, gg); !ok || n == 0 {
+					guarded = false
+				}
+			}
+			if !guarded {
+				sinks = append(sinks, Sink{Instr: in, Desc: "Seal (through " + g.Name() + ", which has no ceiling test)"})
+			}
+		})
 		g := gCmp("n < RejectAfterMessages", func(v ssa.Value) bool { return v == pn }, isRej, func(op token.Token) (bool, bool) {
 			switch op {
 			case token.GEQ:
